@@ -7,6 +7,7 @@ package treeprop
 import (
 	"bytes"
 	"fmt"
+	"testing"
 
 	"pgregory.net/rapid"
 	"verif/internal/gen"
@@ -123,14 +124,31 @@ func Plan(prop string, suppress harness.Suppressor) harness.Plan {
 	genLongDoc := func(t *rapid.T) harness.Case { return harness.Case{In: gen.LongDoc(20000, 70000).Draw(t, "in")} }
 	genDeep := func(t *rapid.T) harness.Case { return harness.Case{In: gen.Deep().Draw(t, "in")} }
 	base := "inputs from G1 byte soup (50%), G2 line-structured (30%), G3 mutated spec examples (20%); full block+inline parse; " + rules[prop] + "; distinct by FNV-64 of the input"
-	return harness.Plan{Prop: prop, Suppress: suppress, Checks: []harness.Check{
+	plan := harness.Plan{Prop: prop, Suppress: suppress, Checks: []harness.Check{
 		{Name: "memory", Quick: 80000, Thorough: 1500000, Gen: genMem, Prop: propMemory, Rule: "Parse: " + base},
 		{Name: "memory_lines", Quick: 40000, Thorough: 800000, Gen: genLines, Prop: propMemory, Rule: "Parse on G2 only (multi-line constructs inside containers): " + rules[prop]},
 		{Name: "stream", Quick: 30000, Thorough: 500000, Gen: genStream, Prop: propStream, Rule: "NewBlockParser+Extract+Rewrite under a G5 read schedule: " + base},
 		{Name: "stream_documents", Quick: 40, Thorough: 600, Gen: genLongDoc, Prop: propStream, Rule: "documents of 20-70 KB with hundreds of root blocks through NewBlockParser (read as much at a time as the parser asks for), every block kept and examined after the whole input was read: " + rules[prop]},
 		{Name: "deep", Quick: 3000, Thorough: 50000, Gen: genDeep, Prop: propMemory, Rule: "trees that are deep (up to 48 nested containers, 40 nested inlines) or wide (up to 150 siblings) by construction: " + rules[prop]},
 		{Name: "long", Quick: 150, Thorough: 1500, Gen: genLong, Prop: propMemory, Rule: "G1 long mode 2-20 KB (deep nesting, long runs): " + rules[prop]},
+		{Name: "edge_documents", Prop: propMemory, Rule: "enumerated: every special line (gen.LastLines) as the last line of every context (gen.LastContexts), with and without final line ending, LF / CRLF / CR; through Parse and through the streaming parser with one-byte reads: " + rules[prop]},
 	}}
+	plan.After = func(t *testing.T) {
+		docs := gen.EdgeDocs()
+		harness.EnumerateInputs(t, plan, "edge_documents", docs, nil, propMemory)
+		if !t.Failed() {
+			harness.EnumerateInputs(t, plan, "edge_documents", docs, func(i int, in []byte) harness.Case {
+				c := harness.Case{In: in}
+				ones := make([]int, len(in))
+				for k := range ones {
+					ones[k] = 1
+				}
+				c.SetL("sched", ones)
+				return c
+			}, propStream)
+		}
+	}
+	return plan
 }
 
 var _ = bytes.Equal
